@@ -1,7 +1,9 @@
 SPECIFICATION Spec
 CONSTANTS Nodes <- MCNodes
           Addrs <- MCAddrs
-          CertAddrs <- MCCert
+          InitCert <- MCCert
+          RespCert <- MCCert
+          Own <- MCOwn
           Trusts <- MCTrusts
           Route <- MCRoute
           Idx = {1, 2}
